@@ -25,6 +25,8 @@ def law_items(tier, seed):
     # L1
     for d in gen.s5(tier):
         b = d['block']
+        if b['op'] != 'multi':
+            continue
         for rcc in (True,):
             multi = dict(b, rcc=rcc)
             merge = {'op': 'merge', 'blocks': [gen.cross(b['design'], c, [], rcc) for c in b['crossings']], 'constraints': b['constraints'],
